@@ -385,7 +385,7 @@ func runTaskloop(c *Ctx) error {
 	}
 	n, rounds := 12000, 2
 	if c.Tier != "quick" {
-		n, rounds = 400000, 10
+		n, rounds = 300000, 6
 	}
 
 	for k := 0; k < n; k++ {
